@@ -9,53 +9,54 @@
      api/state.py:State.__init__ (config.copy())            -> state_new
      api/state.py:State.copy (copy.deepcopy)                -> state_deepcopy
      api/simulator.py:execute_instructions                  -> exec_heap
-   [fixed] selects fixes/C12-private-python-rng.diff (piquasso's own random.Random instead
-   of the process-global generator of the `random` module). *)
+   [fixed] selects the repair of the fixes branch ("seeded Fock measurements depended on (and
+   reseeded) the global `random` state"): every Config owns a random.Random (_python_rng),
+   created by the seed_sequence setter, shared by Config.copy like the numpy Generator, and
+   the Fock measurements draw from state._config._python_rng; before the repair the setter
+   called random.seed and the measurements drew from the `random` module. *)
 From Coq Require Import ZArith List Bool Arith.
 Import ListNotations.
 
-Record config := mkC { c_fields : Z; c_rng : nat }.   (* every attribute but rng; the Generator object *)
+Record config := mkC { c_fields : Z; c_rng : nat; c_py : nat }.   (* other attributes; rng; _python_rng *)
 Record state := mkS { s_data : Z; s_cfg : nat }.       (* the arrays; the state's own Config *)
 
 Record heap := mkH {
   h_rng : nat -> Z;      h_nrng : nat;     (* numpy Generator objects: their state *)
+  h_py : nat -> Z;       h_npy : nat;      (* random.Random objects owned by Configs *)
   h_cfg : nat -> config; h_ncfg : nat;
   h_st : nat -> state;   h_nst : nat;
-  h_global : Z;          (* state of the `random` module: the caller's *)
-  h_private : Z          (* piquasso._utils.python_rng (repaired tree only) *)
+  h_global : Z           (* state of the `random` module: the caller's *)
 }.
 
 Definition upd {A} (f : nat -> A) (k : nat) (v : A) : nat -> A :=
   fun i => if Nat.eqb i k then v else f i.
 
-(* random.seed(s) resp. python_rng.seed(s) *)
-Definition seed_py (fixed : bool) (s : Z) (h : heap) : heap :=
-  if fixed
-  then mkH (h_rng h) (h_nrng h) (h_cfg h) (h_ncfg h) (h_st h) (h_nst h) (h_global h) s
-  else mkH (h_rng h) (h_nrng h) (h_cfg h) (h_ncfg h) (h_st h) (h_nst h) s (h_private h).
-(* random.choices(...) resp. python_rng.choices(...): the generator advances *)
-Definition draw_py (fixed : bool) (h : heap) : heap :=
-  if fixed
-  then mkH (h_rng h) (h_nrng h) (h_cfg h) (h_ncfg h) (h_st h) (h_nst h) (h_global h) (h_private h + 1)%Z
-  else mkH (h_rng h) (h_nrng h) (h_cfg h) (h_ncfg h) (h_st h) (h_nst h) (h_global h + 1)%Z (h_private h).
+(* random.seed(s): only before the repair *)
+Definition seed_global (s : Z) (h : heap) : heap :=
+  mkH (h_rng h) (h_nrng h) (h_py h) (h_npy h) (h_cfg h) (h_ncfg h) (h_st h) (h_nst h) s.
 
 Definition alloc_rng (v : Z) (h : heap) : nat * heap :=
-  (h_nrng h, mkH (upd (h_rng h) (h_nrng h) v) (S (h_nrng h)) (h_cfg h) (h_ncfg h) (h_st h) (h_nst h)
-                 (h_global h) (h_private h)).
+  (h_nrng h, mkH (upd (h_rng h) (h_nrng h) v) (S (h_nrng h)) (h_py h) (h_npy h) (h_cfg h) (h_ncfg h)
+                 (h_st h) (h_nst h) (h_global h)).
+Definition alloc_py (v : Z) (h : heap) : nat * heap :=
+  (h_npy h, mkH (h_rng h) (h_nrng h) (upd (h_py h) (h_npy h) v) (S (h_npy h)) (h_cfg h) (h_ncfg h)
+                (h_st h) (h_nst h) (h_global h)).
 Definition alloc_cfg (c : config) (h : heap) : nat * heap :=
-  (h_ncfg h, mkH (h_rng h) (h_nrng h) (upd (h_cfg h) (h_ncfg h) c) (S (h_ncfg h)) (h_st h) (h_nst h)
-                 (h_global h) (h_private h)).
+  (h_ncfg h, mkH (h_rng h) (h_nrng h) (h_py h) (h_npy h) (upd (h_cfg h) (h_ncfg h) c) (S (h_ncfg h))
+                 (h_st h) (h_nst h) (h_global h)).
 Definition alloc_st (s : state) (h : heap) : nat * heap :=
-  (h_nst h, mkH (h_rng h) (h_nrng h) (h_cfg h) (h_ncfg h) (upd (h_st h) (h_nst h) s) (S (h_nst h))
-                (h_global h) (h_private h)).
+  (h_nst h, mkH (h_rng h) (h_nrng h) (h_py h) (h_npy h) (h_cfg h) (h_ncfg h)
+                (upd (h_st h) (h_nst h) s) (S (h_nst h)) (h_global h)).
 
-(* Config(seed_sequence=s): a new Generator, and the Python-level generator is (re)seeded *)
+(* Config(seed_sequence=s): a new Generator and a new random.Random(s); before the repair
+   random.seed(s) instead (the object in c_py is then never drawn from) *)
 Definition config_new (fixed : bool) (s : Z) (h : heap) : nat * heap :=
   let '(r, h1) := alloc_rng s h in
-  let '(c, h2) := alloc_cfg (mkC s r) h1 in
-  (c, seed_py fixed s h2).
+  let '(p, h2) := alloc_py s h1 in
+  let '(c, h3) := alloc_cfg (mkC s r p) h2 in
+  (c, if fixed then h3 else seed_global s h3).
 
-(* Config.copy: a new object with equal attributes that shares the Generator *)
+(* Config.copy: a new object with equal attributes that shares rng and _python_rng *)
 Definition config_copy (c : nat) (h : heap) : nat * heap := alloc_cfg (h_cfg h c) h.
 
 (* Simulator.__init__: config.copy() if a config is given, else Config() *)
@@ -71,24 +72,33 @@ Definition state_deepcopy (s : nat) (h : heap) : nat * heap :=
   let st := h_st h s in
   let cf := h_cfg h (s_cfg st) in
   let '(r, h1) := alloc_rng (h_rng h (c_rng cf)) h in
-  let '(c, h2) := alloc_cfg (mkC (c_fields cf) r) h1 in
-  alloc_st (mkS (s_data st) c) h2.
+  let '(p, h2) := alloc_py (h_py h (c_py cf)) h1 in
+  let '(c, h3) := alloc_cfg (mkC (c_fields cf) r p) h2 in
+  alloc_st (mkS (s_data st) c) h3.
 
 (* what a simulation step may do to the state it is handed *)
 Inductive hev :=
 | HWrite (v : Z)     (* in-place update of the state's arrays *)
 | HDrawNp            (* state._config.rng.<draw> *)
-| HDrawPy            (* random.choices / python_rng.choices *)
+| HDrawPy            (* random.choices resp. state._config._python_rng.choices *)
 | HFork              (* a sub-branch: state.copy(), continue on the copy *)
 | HNewFrom.          (* a new State object built with config=state._config, continue on it *)
 
 Definition write_state (w : nat) (v : Z) (h : heap) : heap :=
-  mkH (h_rng h) (h_nrng h) (h_cfg h) (h_ncfg h)
-      (upd (h_st h) w (mkS v (s_cfg (h_st h w)))) (h_nst h) (h_global h) (h_private h).
+  mkH (h_rng h) (h_nrng h) (h_py h) (h_npy h) (h_cfg h) (h_ncfg h)
+      (upd (h_st h) w (mkS v (s_cfg (h_st h w)))) (h_nst h) (h_global h).
 Definition draw_np (w : nat) (h : heap) : heap :=
   let r := c_rng (h_cfg h (s_cfg (h_st h w))) in
-  mkH (upd (h_rng h) r (h_rng h r + 1)%Z) (h_nrng h) (h_cfg h) (h_ncfg h) (h_st h) (h_nst h)
-      (h_global h) (h_private h).
+  mkH (upd (h_rng h) r (h_rng h r + 1)%Z) (h_nrng h) (h_py h) (h_npy h) (h_cfg h) (h_ncfg h)
+      (h_st h) (h_nst h) (h_global h).
+Definition draw_py (fixed : bool) (w : nat) (h : heap) : heap :=
+  if fixed then
+    let p := c_py (h_cfg h (s_cfg (h_st h w))) in
+    mkH (h_rng h) (h_nrng h) (upd (h_py h) p (h_py h p + 1)%Z) (h_npy h) (h_cfg h) (h_ncfg h)
+        (h_st h) (h_nst h) (h_global h)
+  else
+    mkH (h_rng h) (h_nrng h) (h_py h) (h_npy h) (h_cfg h) (h_ncfg h) (h_st h) (h_nst h)
+        (h_global h + 1)%Z.
 
 Fixpoint run_steps (fixed : bool) (w : nat) (evs : list hev) (h : heap) : nat * heap :=
   match evs with
@@ -97,7 +107,7 @@ Fixpoint run_steps (fixed : bool) (w : nat) (evs : list hev) (h : heap) : nat * 
     match e with
     | HWrite v => run_steps fixed w r (write_state w v h)
     | HDrawNp => run_steps fixed w r (draw_np w h)
-    | HDrawPy => run_steps fixed w r (draw_py fixed h)
+    | HDrawPy => run_steps fixed w r (draw_py fixed w h)
     | HFork => let '(w', h') := state_deepcopy w h in run_steps fixed w' r h'
     | HNewFrom => let '(w', h') := state_new (s_cfg (h_st h w)) (s_data (h_st h w)) h in
                   run_steps fixed w' r h'
